@@ -114,9 +114,14 @@ func (c *Copier) CopyDict(obj Dict) (Dict, error) {
 	res := Dict{}
 	for _, key := range obj.SortedKeys() {
 		val := obj[key]
-		repl, err := c.Copy(val.AsPDF(c.w.GetOptions()))
-		if err != nil {
-			return nil, err
+		// an entry whose value is null is the same as a missing entry
+		var repl Native
+		if val != nil {
+			var err error
+			repl, err = c.Copy(val.AsPDF(c.w.GetOptions()))
+			if err != nil {
+				return nil, err
+			}
 		}
 		res[key] = repl
 	}
